@@ -26,8 +26,8 @@ Ooz == {<<la>>, <<<<102, 120>>>>}                       \* "a."  and  "fx."
 UNames == U1 \cup U2 \cup (IF Thorough THEN U3 \cup Ooz ELSE {<<<<102, 120>>>>})
 
 Menu == {{T_A}, {T_NS}, {T_NS, T_DS}, {T_A, T_TXT, T_CAA}}
-        \cup (IF Thorough THEN {{T_NS, T_A}, {T_TXT}} ELSE {})
-ApexSets == {{T_SOA, T_NS}} \cup (IF Thorough THEN {{T_SOA, T_NS, T_DNSKEY, T_A}} ELSE {})
+        \cup (IF Thorough THEN {{T_NS, T_A}} ELSE {})
+ApexSets == IF Thorough THEN {{T_SOA, T_NS, T_DNSKEY, T_A}} ELSE {{T_SOA, T_NS}}
 
 Recs(n, ts) == {[n |-> n, t |-> t] : t \in ts}
 \* hand-picked larger zones
@@ -65,7 +65,7 @@ RankOf(r) ==
              [] r = 5 -> IF 2 * i <= N THEN 2 * i ELSE 2 * (N + 1 - i) + 1   \* outside-in
              [] OTHER -> IF i % 3 = 0 THEN i ELSE IF i % 3 = 1 THEN 2 * N - i ELSE 3 * N + i])
 NRanks == IF Thorough THEN 4 ELSE 2
-ProbeTypes == IF Thorough THEN {T_A, T_NS, T_DS, T_TXT, T_SOA, T_CAA, 99} ELSE {T_A, T_DS, T_CAA, 99}
+ProbeTypes == {T_A, T_DS, T_CAA, 99}
 
 --------------------------------------------------------------------------
 
